@@ -450,4 +450,107 @@ theorem readRequest_ext (inp : Bytes) (m0 : Msg) (t : Transfer) (r0 : Bytes) (p 
   simp only [hh] at h ⊢
   exact finishBody_ext m0 t r0 p r e hk h
 
+/-! ### strict prefixes -/
+
+theorem finishBody_eof_rest (m : Msg) (t : Transfer) (inp : Bytes) (p : Parsed) (r : Bytes)
+    (hk : t.body = .eof) (h : finishBody m t inp = .complete p r) : r = [] := by
+  unfold finishBody at h
+  rw [hk] at h
+  simp only [readBody, R.complete.injEq] at h
+  exact h.2.symm
+
+theorem readResponse_head_of_complete (meth inp : Bytes) (p : Parsed) (r : Bytes)
+    (h : readResponse meth inp = .complete p r) :
+    ∃ m0 t r0, readResponseHead meth inp = .complete (m0, t) r0 ∧ finishBody m0 t r0 = .complete p r := by
+  unfold readResponse at h
+  cases hh : readResponseHead meth inp with
+  | complete x r0 => obtain ⟨m0, t⟩ := x; simp only [hh] at h; exact ⟨m0, t, r0, rfl, h⟩
+  | incomplete => simp [hh] at h
+  | malformed => simp [hh] at h
+  | outOfModel => simp [hh] at h
+
+theorem readRequest_head_of_complete (inp : Bytes) (p : Parsed) (r : Bytes)
+    (h : readRequest inp = .complete p r) :
+    ∃ m0 t r0, readRequestHead inp = .complete (m0, t) r0 ∧ finishBody m0 t r0 = .complete p r := by
+  unfold readRequest at h
+  cases hh : readRequestHead inp with
+  | complete x r0 => obtain ⟨m0, t⟩ := x; simp only [hh] at h; exact ⟨m0, t, r0, rfl, h⟩
+  | incomplete => simp [hh] at h
+  | malformed => simp [hh] at h
+  | outOfModel => simp [hh] at h
+
+/-- If a byte string `w` is read as one complete response with nothing left, and one more byte
+after it is left untouched (so the message is delimited by its length, not by the end of the
+input), then NO strict prefix of `w` is read as a complete response. -/
+theorem response_prefix_never_complete (meth w : Bytes) (p : Parsed)
+    (h0 : readResponse meth w = .complete p [])
+    (h1 : readResponse meth (w ++ [0]) = .complete p [0]) :
+    ∀ k, k < w.length → (readResponse meth (w.take k)).isComplete = false := by
+  intro k hk
+  obtain ⟨m0, t, r0, hh, _⟩ := readResponse_head_of_complete meth w p [] h0
+  -- the body is not delimited by the close
+  have hne : t.body ≠ .eof := by
+    intro he
+    have hh1 := readResponseHead_ext meth w (m0, t) r0 [0] hh
+    unfold readResponse at h1
+    simp only [hh1] at h1
+    have := finishBody_eof_rest m0 t _ p [0] he h1
+    cases this
+  cases hp : readResponse meth (w.take k) with
+  | incomplete => rfl
+  | malformed => rfl
+  | outOfModel => rfl
+  | complete p' r' =>
+    exfalso
+    obtain ⟨m0', t', r0', hh', _⟩ := readResponse_head_of_complete meth _ p' r' hp
+    have hw : w.take k ++ w.drop k = w := List.take_append_drop k w
+    have hhw := readResponseHead_ext meth (w.take k) (m0', t') r0' (w.drop k) hh'
+    rw [hw, hh] at hhw
+    simp only [R.complete.injEq, Prod.mk.injEq] at hhw
+    have hne' : t'.body ≠ .eof := by rw [← hhw.1.2]; exact hne
+    have := readResponse_ext meth (w.take k) m0' t' r0' p' r' (w.drop k) hh' hne' hp
+    rw [hw, h0] at this
+    simp only [R.complete.injEq] at this
+    have hd : w.drop k = [] := by
+      have := this.2; cases hr : r' with
+      | nil => simpa [hr] using this.symm
+      | cons c x => rw [hr] at this; simp at this
+    have := congrArg List.length hd
+    simp at this; omega
+
+theorem request_prefix_never_complete (w : Bytes) (p : Parsed)
+    (h0 : readRequest w = .complete p [])
+    (h1 : readRequest (w ++ [0]) = .complete p [0]) :
+    ∀ k, k < w.length → (readRequest (w.take k)).isComplete = false := by
+  intro k hk
+  obtain ⟨m0, t, r0, hh, _⟩ := readRequest_head_of_complete w p [] h0
+  have hne : t.body ≠ .eof := by
+    intro he
+    have hh1 := readRequestHead_ext w (m0, t) r0 [0] hh
+    unfold readRequest at h1
+    simp only [hh1] at h1
+    have := finishBody_eof_rest m0 t _ p [0] he h1
+    cases this
+  cases hp : readRequest (w.take k) with
+  | incomplete => rfl
+  | malformed => rfl
+  | outOfModel => rfl
+  | complete p' r' =>
+    exfalso
+    obtain ⟨m0', t', r0', hh', _⟩ := readRequest_head_of_complete _ p' r' hp
+    have hw : w.take k ++ w.drop k = w := List.take_append_drop k w
+    have hhw := readRequestHead_ext (w.take k) (m0', t') r0' (w.drop k) hh'
+    rw [hw, hh] at hhw
+    simp only [R.complete.injEq, Prod.mk.injEq] at hhw
+    have hne' : t'.body ≠ .eof := by rw [← hhw.1.2]; exact hne
+    have := readRequest_ext (w.take k) m0' t' r0' p' r' (w.drop k) hh' hne' hp
+    rw [hw, h0] at this
+    simp only [R.complete.injEq] at this
+    have hd : w.drop k = [] := by
+      have := this.2; cases hr : r' with
+      | nil => simpa [hr] using this.symm
+      | cons c x => rw [hr] at this; simp at this
+    have := congrArg List.length hd
+    simp at this; omega
+
 end Martian.Http1
